@@ -319,14 +319,10 @@ def Coll.bulk (E : Env) (c : Coll) (os : List Obj) (k : Nat) : Coll × Nat × Re
 /-- private `db.delete(o)` given the loaded schema -/
 def Coll.deleteCore (c : Coll) (l : Loaded) (u : Nat) : Coll × Res Loaded :=
   let c := if l.settings.mustCache then { c with cache := c.cache.erase u, pending := c.pending.erase u } else c
-  match l.index.deleteByUUID u with
-  | .ok ix =>
-    let l := { l with index := ix }
-    let c := c.setMem l
-    let c := if c.disk.files.has u then c.fs (.rmObj u) else c
-    (c, .ok l)
-  | .err e => (c, .err e)
-  | .panic => (c, .panic)
+  let l := { l with index := l.index.deleteByUUID u }
+  let c := c.setMem l
+  let c := if c.disk.files.has u then c.fs (.rmObj u) else c
+  (c, .ok l)
 
 /-- `DB.Delete(o)` -/
 def Coll.delete (c : Coll) (u : Nat) : Coll × Res Unit :=
@@ -438,14 +434,9 @@ def Coll.repairAdd (c : Coll) (l : Loaded) : List Nat → Coll × Loaded × Res 
     | (c, .panic) => (c, l, .panic)
 
 /-- drop index entries whose file is gone (second loop of `Repair`) -/
-def repairDrop (d : Disk) (ix : ObjIndex) : List Nat → Res ObjIndex
-  | [] => .ok ix
-  | u :: us =>
-    if d.files.has u then repairDrop d ix us else
-    match ix.deleteByUUID u with
-    | .ok ix' => repairDrop d ix' us
-    | .err e => .err e
-    | .panic => .panic
+def repairDrop (d : Disk) (ix : ObjIndex) : List Nat → ObjIndex
+  | [] => ix
+  | u :: us => if d.files.has u then repairDrop d ix us else repairDrop d (ix.deleteByUUID u) us
 
 /-- `DB.Repair(of)` -/
 def Coll.repair (c : Coll) : Coll × Res Unit :=
@@ -458,11 +449,7 @@ def Coll.repair (c : Coll) : Coll × Res Unit :=
       -- an internally inconsistent index is rebuilt from scratch
       let l := if l.index.control then l else { l with index := { (ObjIndex.new l.descs) with next := l.index.next } }
       match Coll.repairAdd c l c.disk.files.keys with
-      | (c, l, .ok ()) =>
-        match repairDrop c.disk l.index l.index.uuids with
-        | .ok ix => (c.setMem { l with index := ix }, .ok ())
-        | .err e => (c.setMem l, .err e)
-        | .panic => (c, .panic)
+      | (c, l, .ok ()) => (c.setMem { l with index := repairDrop c.disk l.index l.index.uuids }, .ok ())
       | (c, l, .err e) => (c.setMem l, .err e)
       | (c, _, .panic) => (c, .panic)
   | (c, .err e) => (c, .err e)
